@@ -202,6 +202,8 @@ def c05(tier):
                 else:
                     S.add("write 0 %s i %d gen %s %d %d" % (T, p * ch, cls, rng.randint(1, 10 ** 6), par))
                 left -= p
+                if rng.random() < 0.15:      # a header update must not move where the next items go
+                    S.add("cmd 0 UPDATE_HEADER_NOW 0")
             S.add("close 0", "open 1 %s r 1 %d %d %d" % (rt, fmt if scen.major(fmt) == scen.RAW else 0, ch, RATE))
             for pos in (0, B // 2 if B > 1 else 17, N - 1, N):
                 for sz in rng.sample(sizes, 3 if tier == "quick" else 6):
@@ -308,6 +310,16 @@ def c08(tier):
                 elif after == "write":
                     S.add("seek 0 0 32", "write 0 %s f 1 gen %s %d %d" % (T, cls, rng.randint(1, 10 ** 6), par))
                 S.add("close 0", "open 1 fd r 1 %d %d %d" % (fmt if scen.major(fmt) == scen.RAW else 0, ch, RATE), "read 1 %s f %d" % (T, pre + 3), "close 1")
+    for fmt in allf:
+        T = gen_core.type_for(fmt)
+        lc = scen.lossless_class(fmt, T)
+        cls, par = lc if lc else ("noise", 0)
+        for pre in (7, 8):
+            S.scn(fmt="0x%x" % fmt, ch=1, T=T, kind="overread_append", pre=pre)
+            S.add("file 1 new", "open 0 fd w 1 %d 1 %d" % (fmt, RATE), "write 0 %s f %d gen %s %d %d" % (T, pre, cls, rng.randint(1, 10 ** 6), par), "close 0",
+                  "open 0 fd rw 1 %d 1 %d" % (fmt, RATE), "read 0 %s f 50" % T, "write 0 %s f 3 gen %s %d %d" % (T, cls, rng.randint(1, 10 ** 6), par),
+                  "seek 0 %d 16" % (pre - 1), "read 0 %s f 9" % T, "close 0",
+                  "open 1 fd r 1 %d 1 %d" % (fmt if scen.major(fmt) == scen.RAW else 0, RATE), "read 1 %s f %d" % (T, pre + 8), "close 1")
     depth = 3 if tier == "quick" else 4
     fam = [0x10002, 0x20004, 0x30006, 0x40001, 0x180003] if tier == "quick" else [0x10002, 0x10005, 0x10006, 0x20004, 0x30007, 0x40001, 0x180003, 0xb0002, 0x220002, 0x50002, 0x70003, 0xa0006, 0xc0007, 0xd0004]
     nh = 0
@@ -462,6 +474,14 @@ def c19(tier):
     # every encoding: readers of different files of the same kind, interleaved seeks across all blocks
     for fmt, ch in ([x for x in allf if x[1] == 1] if tier == "quick" else allf):
         gen_env.c19_codec_pairs(S, fmt, ch, RATE, rng, k=2 if tier == "quick" else 3, steps=12 if tier == "quick" else 30)
+    # Sound Designer II writers one after the other in one process, parameters with more and more digits (they are written as text)
+    sd2ok = set(formats.writable(exe, chans=(1, 2), rate=RATE))
+    if (0x160002, 1) in sd2ok:
+        S.scn(fmt="0x160002", ch=1, T="s", kind="c19sd2")
+        sd = rng.randint(1, 10 ** 6)      # (the second and the last file are the same workload: byte identical, resource fork included)
+        for k, (fm, chn, rate) in enumerate(((0x160001, 1, 1), (0x160002, 2, 8000), (0x160003, 1, 192000), (0x160002, 12, 44100), (0x160002, 2, 8000))):
+            S.add("file %d new" % (k + 1), "open 0 path w %d %d %d %d" % (k + 1, fm, chn, rate), "write 0 s f 33 gen lbz %d 8" % sd, "close 0",
+                  "open 1 path r %d 0 0 0" % (k + 1), "read 1 s f 40", "close 1")
     # per-handle settings stay per handle (every setter command on another handle of the same and of another encoding)
     setB = [0x10006, 0x20006, 0x30006, 0x40006, 0x10007, 0x180007, 0x10002, 0x20003, 0x30010] if tier == "quick" else [f for f, c in allf if c == 1]
     for fb in setB:
